@@ -4,7 +4,7 @@ From DV Require Import Base.Prelude Model.NameM Model.ZoneTextM.
 From DV Require Import Proofs.ZoneTextBase Proofs.ZoneTextInv Proofs.ZoneTextRespell Proofs.ZoneTextLex
   Proofs.ZoneTextAcc Proofs.ZoneTextRecord Proofs.ZoneTextSweep Proofs.ZoneTextRoundtrip Proofs.ZoneTextNames
   Proofs.ZoneTextParens Proofs.ZoneTextRead Proofs.ZoneTextGenerate Proofs.ZoneTextWf
-  Proofs.ZoneTextRdata Proofs.ZoneTextStruct.
+  Proofs.ZoneTextRdata Proofs.ZoneTextStruct Proofs.ZoneTextFuel.
 From DV Require Import Proofs.NameValid Proofs.NameText.
 From Coq Require Import Permutation.
 Open Scope Z_scope.
@@ -240,6 +240,22 @@ Theorem respell_generate : forall c s co zo t0 lhs ttlo clso tyt rhs start stop 
   exp_fold (Z.to_nat ((stop - start) / step + 1)) start step c s lhs rhs lm rm ttlo clso tyt = Ok s'.
 Proof. exact respell_generate_proof. Qed.
 Print Assumptions respell_generate.
+
+(* The reader loop runs on fuel length(text) + 1 (from_text).  That bound is sufficient: every
+   logical line consumes at least one character (lex_rest), so any larger fuel gives the same
+   result, and the loop never produces the out-of-fuel marker itself. *)
+Theorem read_loop_fuel_irrelevant : forall c f1 f2 text s,
+  (length text < f1)%nat -> (length text < f2)%nat ->
+  read_loop f1 c s text = read_loop f2 c s text.
+Proof. exact read_loop_fuel_irrelevant_proof. Qed.
+Print Assumptions read_loop_fuel_irrelevant.
+
+Theorem read_loop_never_starves : forall c f text s,
+  (length text < f)%nat ->
+  read_loop f c s text = Internal iFuelZ ->
+  exists s' lead toks lerr, process_line c s' lead toks lerr = Internal iFuelZ.
+Proof. exact read_loop_never_starves_proof. Qed.
+Print Assumptions read_loop_never_starves.
 
 (* ---------- non-vacuity: the hypotheses are satisfiable, the model really loads zones ---------- *)
 Definition ex_origin : name := [[101; 120]; []].   (* "ex." *)
